@@ -54,13 +54,24 @@ func newAdv(e *Engine) *Adv {
 	for _, b := range e.Cfg.Byz {
 		id := e.Cfg.C[b].ID
 		a.byz = append(a.byz, id)
-		a.fac[string(id)] = messagesfactory.NewMessageFactory(kit.Instance, &kit.KeyManager{Me: id}, id, seed)
+		a.fac[string(id)] = nil
+		_ = seed
 	}
 	if e.Cfg.Outsider {
 		a.out = []byte("xo")
-		a.fac["xo"] = messagesfactory.NewMessageFactory(kit.Instance, &kit.KeyManager{Me: a.out}, a.out, seed)
+		a.fac["xo"] = nil
 	}
 	return a
+}
+
+// facOf: a FRESH message factory of the library for every message the adversary builds with its own keys (the
+// factory is code under test: one instance is never shared between calls or between the parallel workers).
+func (a *Adv) facOf(id string) *messagesfactory.MessageFactory {
+	if _, ok := a.fac[id]; !ok {
+		panic("adversary does not own the key of " + id)
+	}
+	mid := primitives.MemberId(id)
+	return messagesfactory.NewMessageFactory(kit.Instance, &kit.KeyManager{Me: mid}, mid, randomseed.CalculateRandomSeed(nil))
 }
 
 func (a *Adv) soupDependent() bool {
@@ -139,7 +150,7 @@ func (a *Adv) proofs(soup []Sent, h uint64) []proofSrc {
 				blk := a.blockFor(h, t)
 				k := key{v, fmt.Sprintf("%x", []byte(kit.HashOf(blk)))}
 				if pps[k] == nil {
-					pps[k] = a.fac[string(b)].CreatePreprepareMessage(primitives.BlockHeight(h), primitives.View(v), blk, kit.HashOf(blk))
+					pps[k] = a.facOf(string(b)).CreatePreprepareMessage(primitives.BlockHeight(h), primitives.View(v), blk, kit.HashOf(blk))
 					tags[k] = t
 				}
 			}
@@ -158,7 +169,7 @@ func (a *Adv) proofs(soup []Sent, h uint64) []proofSrc {
 		for _, b := range a.byz {
 			if string(b) != r.Leader(k.v) && !ids[string(b)] {
 				ids[string(b)] = true
-				ps = append(ps, a.fac[string(b)].CreatePrepareMessage(primitives.BlockHeight(h), primitives.View(k.v), hexb(k.hash)))
+				ps = append(ps, a.facOf(string(b)).CreatePrepareMessage(primitives.BlockHeight(h), primitives.View(k.v), hexb(k.hash)))
 			}
 		}
 		if !r.IsQuorum(ids) || len(ps) == 0 {
@@ -177,7 +188,7 @@ func (a *Adv) proofs(soup []Sent, h uint64) []proofSrc {
 }
 
 func (a *Adv) vote(b primitives.MemberId, h, v uint64, p *proofSrc, block interfaces.Block) *interfaces.ViewChangeMessage {
-	f := a.fac[string(b)]
+	f := a.facOf(string(b))
 	var builder *protocol.ViewChangeMessageContentBuilder
 	if p == nil {
 		builder = f.CreateViewChangeMessageContentBuilder(primitives.BlockHeight(h), primitives.View(v), nil)
@@ -192,7 +203,7 @@ func (a *Adv) vote(b primitives.MemberId, h, v uint64, p *proofSrc, block interf
 // genuine one. Nothing on the receive path constrains the type inside a proof, so correct nodes accept the vote;
 // whatever they build from it later (NEW_VIEW) must still be acceptable to their peers (C11).
 func (a *Adv) voteOddType(b primitives.MemberId, h, v uint64, p *proofSrc, block interfaces.Block) *interfaces.ViewChangeMessage {
-	f := a.fac[string(b)]
+	f := a.facOf(string(b))
 	builder := f.CreateViewChangeMessageContentBuilder(primitives.BlockHeight(h), primitives.View(v), &preparedmessages.PreparedMessages{PreprepareMessage: p.ppm, PrepareMessages: p.preps})
 	pr := builder.SignedHeader.PreparedProof
 	pr.PreprepareBlockRef.MessageType = protocol.LEAN_HELIX_COMMIT
@@ -302,9 +313,9 @@ func (a *Adv) build(soup []Sent, t *LState) []int {
 		if a.on("PC") {
 			for _, b := range signers {
 				if r.Leader(v) != string(b) && v >= t.View {
-					add(a.fac[string(b)].CreatePrepareMessage(H, primitives.View(v), hash), "PC")
+					add(a.facOf(string(b)).CreatePrepareMessage(H, primitives.View(v), hash), "PC")
 				}
-				add(a.fac[string(b)].CreateCommitMessage(H, primitives.View(v), hash), "PC")
+				add(a.facOf(string(b)).CreateCommitMessage(H, primitives.View(v), hash), "PC")
 			}
 		}
 		if a.on("NC") {
@@ -318,9 +329,9 @@ func (a *Adv) build(soup []Sent, t *LState) []int {
 		}
 		if a.on("OUT") && a.out != nil {
 			if v >= t.View {
-				add(a.fac["xo"].CreatePrepareMessage(H, primitives.View(v), hash), "OUT")
+				add(a.facOf("xo").CreatePrepareMessage(H, primitives.View(v), hash), "OUT")
 			}
-			add(a.fac["xo"].CreateCommitMessage(H, primitives.View(v), hash), "OUT")
+			add(a.facOf("xo").CreateCommitMessage(H, primitives.View(v), hash), "OUT")
 		}
 		if a.on("XT") {
 			// an honest PREPARE for (v,hash) whose sender's share is known from any of its COMMITs
@@ -363,7 +374,7 @@ func (a *Adv) build(soup []Sent, t *LState) []int {
 			}
 			for _, tag := range e.Cfg.Alphabet {
 				blk := a.blockFor(h, tag)
-				add(a.fac[string(b)].CreatePreprepareMessage(H, primitives.View(v), blk, kit.HashOf(blk)), prim)
+				add(a.facOf(string(b)).CreatePreprepareMessage(H, primitives.View(v), blk, kit.HashOf(blk)), prim)
 			}
 		}
 	}
@@ -462,7 +473,7 @@ func (a *Adv) newViews(soup []Sent, t *LState, b primitives.MemberId, v uint64, 
 	r := e.W.R
 	h := t.Height
 	H, V := primitives.BlockHeight(h), primitives.View(v)
-	f := a.fac[string(b)]
+	f := a.facOf(string(b))
 	type cand struct {
 		vcm  *interfaces.ViewChangeMessage
 		id   string
